@@ -1,22 +1,53 @@
 /*@UNIT
 {
-  "property": "C13",
-  "unit": "sub_d_exact",
-  "function": "pstm_sub_d",
-  "source": "crypto/math/pstm.c",
-  "keep_bodies": ["pstm_init_size", "pstm_set", "pstm_zero", "pstm_add", "pstm_sub", "s_pstm_add", "pstm_sub_s", "pstm_cmp_mag", "pstm_clamp", "pstm_clear", "pstm_grow"],
-  "assumed": ["malloc / realloc / free (models c13_malloc, c13_realloc, c13_free in c13x.h: NULL or a distinct constant-size block; free has no effect)"],
-  "mode": "bounded",
-  "bounds": "operand of at most NDIG digits (quick 3 = 192 bit, thorough 4), every digit value b, every sign, c distinct from a or c == a",
-  "defs_quick": ["NDIG=3"],
-  "defs_thorough": ["NDIG=4"],
-  "unwind_quick": 10,
-  "unwind_thorough": 11,
-  "object_bits": 8,
-  "solver": "cadical",
-  "cases": [{"name": "distinct", "defs": []}, {"name": "alias_ca", "defs": ["ALIAS_CA=1"], "tier": "thorough"}],
-  "native_replay": true,
-  "timeout": 900
+ "property": "C13",
+ "unit": "sub_d_exact",
+ "function": "pstm_sub_d",
+ "source": "crypto/math/pstm.c",
+ "keep_bodies": [
+  "pstm_init_size",
+  "pstm_set",
+  "pstm_zero",
+  "pstm_add",
+  "pstm_sub",
+  "s_pstm_add",
+  "pstm_sub_s",
+  "pstm_cmp_mag",
+  "pstm_clamp",
+  "pstm_clear",
+  "pstm_grow"
+ ],
+ "assumed": [
+  "malloc / realloc / free (models c13_malloc, c13_realloc, c13_free in c13x.h: NULL or a distinct constant-size block; free has no effect)"
+ ],
+ "mode": "bounded",
+ "bounds": "operand of at most NDIG digits (quick 3 = 192 bit, thorough 4), every digit value b, every sign, c distinct from a or c == a",
+ "defs_quick": [
+  "NDIG=3"
+ ],
+ "defs_thorough": [
+  "NDIG=4"
+ ],
+ "unwind_quick": 10,
+ "unwind_thorough": 11,
+ "object_bits": 8,
+ "solver": "cadical",
+ "cases": [
+  {
+   "name": "distinct",
+   "defs": []
+  },
+  {
+   "name": "alias_ca",
+   "defs": [
+    "ALIAS_CA=1"
+   ],
+   "tier": "thorough"
+  }
+ ],
+ "native_replay": true,
+ "timeout": 900,
+ "tier": "thorough"
 }
 @*/
 /* C13.sub_d_exact  val(c) == val(a) SUB b for a single digit b (temporary 8-digit integer, pstm_set,
